@@ -6,7 +6,7 @@ LABELS = ["LOffer", "LOfferFail", "LTake", "LConsExit", "LAbsorb(keep)", "LAbsor
           "LEnd(ok)", "LEnd(transient)", "LEnd(permanent)", "LRetryTimer", "LRetryStop", "LRetryGiveUp", "LDone",
           "LTimerFire", "LTimerSpawn", "LTimerExit", "LShutCall", "LCloseStop", "LQueueStop", "LJoinConsumers",
           "LFinalFlush", "LFinalSpawn", "LJoinFlushes", "LInnerShutdown", "LReturn",
-          "LAbsorb(split,keep last)", "LAbsorb(split,flush all)", "LSend", "LNoQueue"]
+          "LAbsorb(split,keep last)", "LAbsorb(split,flush all)", "LSend", "LNoQueue", "LAbsorb(first chunk without the request)"]
 
 
 class P(vlib.Prop):
@@ -73,7 +73,7 @@ class P(vlib.Prop):
     CLAUSES = {1: "obs-shutdown-never-returned", 2: "obs-begin-after-return", 3: "obs-inner-shutdown-not-once-before-return",
                4: "obs-goroutine-leak", 5: "obs-send-not-returned", 6: "obs-export-open-at-return",
                7: "obs-lost-accepted-request", 8: "obs-duplicate-export", 9: "obs-not-durable",
-               20: "obs-split-request-not-durable", 99: "obs-malformed-case"}
+               10: "obs-unaccounted-goroutine", 20: "obs-split-request-not-durable", 99: "obs-malformed-case"}
 
     def clause_oracle(self, ctx):
         """Independent oracle + failing-input search: the decidable clause checker C03.Obs.prop_viol (proved to decide
